@@ -7,7 +7,7 @@ Machine = hgm.IdMachine
 
 PROP = {
     "id": "C16",
-    "quick_n": 200,
+    "quick_n": 300,
     "thorough_n": 4000,
     "rule": "one program = a tree whose root region is made of collections / binning nodes with "
             "several children of one spec; one child object is installed at a second position "
@@ -46,7 +46,7 @@ def positions(spec, path=()):
 
 
 def gen_one(r, i, tier):
-    g = gen.G(r, dyadic=True, max_depth=2)
+    g = gen.G(r, dyadic=True, max_depth=2, vecbags=False)
     for _ in range(50):
         inner = g.spec(depth=1)
         root_kind = r.choice(["Branch", "Index", "Label", "UntypedLabel", "Bin", "Fraction", "IrregularlyBin"])
@@ -77,7 +77,16 @@ def gen_one(r, i, tier):
         ops += [("new", spec)] + base.fill_ops(1, s[:1])
     if shared:
         ops.append(("share", 0, list(p1), list(p2)))
-    ops += base.fill_ops(0, s)
+    if i % 3 == 2 and not base.has_kind(spec, ["Average", "Deviate"]) and any("q" in s_ for s_ in gen.walk(spec)):
+        # vectorised fills of the (shared or unshared) tree, between row fills
+        rows = [[float(v) if not isinstance(v, str) else v for v in d]
+                for d, _ in base.small_stream(r, spec, r.randint(1, 4), [1.0], cats=["a", "b", "zz"])]
+        ops += base.fill_ops(0, s[:1])
+        ops.append(("fillnp", 0, rows, [r.choice([1.0, 2.0, 0.5]) for _ in rows]))
+        ops += base.fill_ops(0, s[1:])
+        ops.append(("fillnp", 0, rows[:2], [1.0 for _ in rows[:2]]))
+    else:
+        ops += base.fill_ops(0, s)
     return {"ops": ops, "meta": {"shared": shared}}
 
 
@@ -95,7 +104,7 @@ def oracle(p, run, exact):
     for i, (o, ob) in enumerate(zip(p["ops"], obs)):
         if o[0] == "share":
             before = ob[1:ob.index(-777)]
-        if o[0] == "fill" and o[1] == 0:
+        if o[0] in ("fill", "fillnp") and o[1] == 0:
             if meta["shared"]:
                 if ob[0] != 1:
                     fails.append({"clause": "filling a tree with a shared aggregator raises", "op": i,
